@@ -290,6 +290,10 @@ def run_case(case):
     if not ref["p_trace"]:
         return {"key": key0, "cls": "inadmissible(P_trace)", "nontrivial": False,
                 "obs": {"why": ref["p_trace_why"], "spec": spec}, "viol": [], "mon": mon}
+    mu = [x for x in ref.get("mu_ends", []) if np.isfinite(x)]
+    if mu and (max(mu) > 60 or min(mu) < 2):
+        return {"key": key0, "cls": "inadmissible(P_eos)", "nontrivial": False,
+                "obs": {"mu_ends": ref.get("mu_ends"), "spec": spec}, "viol": [], "mon": mon}
     mg = ref.get("margin", {})
     if "error" in mg or mg.get("TpTop_over_TMaxH", 1) > 0.995 or mg.get("TmTop_over_TMaxL", 1) > 0.995:
         return {"key": key0, "cls": "inadmissible(P_margin)", "nontrivial": False,
